@@ -19,7 +19,7 @@ theorem inv_crash {cfg : Cfg} (hg : cfg.Good) {s : St} {d : Disk} (h : Inv cfg s
   · intro hc; exact absurd rfl hc
   · intro hc; cases hc
   · intro hc; cases hc
-  · intro _; exact ⟨rfl, rfl, rfl, rfl⟩
+  · intro _; exact ⟨rfl, rfl, rfl, rfl, rfl⟩
   · trivial
 
 theorem inv_exit {cfg : Cfg} {s : St} {d : Disk} (h : Inv cfg s d) : Inv cfg (exitSt s) d := by
@@ -33,7 +33,7 @@ theorem inv_exit {cfg : Cfg} {s : St} {d : Disk} (h : Inv cfg s d) : Inv cfg (ex
   · intro hc; exact absurd rfl hc
   · intro hc; cases hc
   · intro hc; cases hc
-  · intro _; exact ⟨rfl, rfl, rfl, rfl⟩
+  · intro _; exact ⟨rfl, rfl, rfl, rfl, rfl⟩
   · trivial
 
 /-- `recoverR` reads the last view -/
